@@ -153,6 +153,17 @@ class Unifier:
                     cls = u.class_of(t.args[0])
                     if cls is not None and isinstance(t.args[1], ast.Name):
                         return n.body if cls.name == t.args[1].id else n.orelse
+                    # an instance of a package class is not an ndarray / list / tuple
+                    if cls is not None and norm(t.args[1]) in ("np.ndarray", "numpy.ndarray", "list", "tuple", "(list, tuple)", "(np.ndarray, list, tuple)"):
+                        return n.orelse
+                # isinstance(x, K) and <more>  with x known not to be a K: the conjunction is false
+                if isinstance(t, ast.BoolOp) and isinstance(t.op, ast.And):
+                    for v in t.values:
+                        if isinstance(v, ast.Call) and norm(v.func) == "isinstance" and len(v.args) == 2:
+                            cls = u.class_of(v.args[0])
+                            if cls is not None and ((isinstance(v.args[1], ast.Name) and cls.name != v.args[1].id and v.args[1].id[:1].isupper())
+                                                    or norm(v.args[1]) in ("np.ndarray", "numpy.ndarray", "list", "tuple")):
+                                return n.orelse
                 if norm(n.body) == norm(n.orelse):
                     return n.body
                 # `<decoded value> is not None` : values produced by the decoder / held by the writer are not None
